@@ -44,9 +44,7 @@ CLAIMED = {
        "documents the whole modelled SAX2 event sequence equals the Spec, DOM lookups on parsed trees answer by inScope, collision detection iff two "
        "attributes share an expanded name, illegal xml/xmlns bindings rejected. Tied to the code by op-history correspondence on the exported "
        "ElemStack/WFElemStack and by parse-level comparison (4 scanners x SAX2 on/off, SAX1, DOM with the three lookups on every node) judged by the Spec.",
-  note="Partial: lookupPrefix completeness, the DOM node builder and the model's error detection vs nsWellFormed are tied by correspondence only; the scanners "
-       "are reference-modelled for the namespace part only; attribute values, DTD defaults, entities, schema validation not modelled. Trusted: Lean kernel + "
-       "propext/Classical.choice/Quot.sound; Spec/Namespace.lean as transcribed; translator; harness/generators.",
+  note="Partial: the scanners are modelled for the namespace part only (attribute values, DTD defaults, entities, schema validation are not modelled); the duplicate-attribute registry is an abstract key set (hashing/rehash covered by C02's threshold correspondence); lookupPrefix completeness is for declared, non-reserved prefixes; the error-detection theorems assume no tag repeats a declaration (plain well-formedness). Model <-> Spec is now proved for SAX2 events, DOM node names (build_names), DOM lookups (sound and complete: lookupPrefix_complete, lookupPrefix_complete_any_tree) and error detection (start_tag_error_iff, scan_errors_iff_not_wellformed, dup_check_threshold_independent, collision_detected_iff_spec); model <-> code remains by correspondence. Trusted: Lean kernel + propext/Classical.choice/Quot.sound; Spec/Namespace.lean; translator; harness/generators.",
   technique="Lean 4 proof over translator-generated constants + model/implementation correspondence (direct class + parse level)",
   ref="4/C06"),
  "C09": dict(
@@ -253,7 +251,15 @@ CLAIMED = {
        "(a) XMLFormatter vs model on every escape mode x unrep mode x 8 encodings x XML 1.0/1.1, (b) DOMLSSerializer vs tree model, and "
        "(c) the property itself judged without the model: API-built and parsed trees x 11 encodings x feature sets x versions are "
        "serialised, re-parsed, compared, re-serialised and decoded with spec codecs.",
-  note="PARTIAL: reparse_equal is proved for one element with attributes and a text child (no model of the whole parser); namespaces / "
+  note="reparse_equal_tree: for every document element with arbitrarily nested elements, attributes, text, CDATA sections, comments and "
+       "PIs (XML 1.0 and 1.1, UTF-8 / UTF-16) the serializer model reports no error, its output is character for character the "
+       "rendering of a concrete syntax tree that is well-formed (C02 WF), C02's reference parser reads exactly that tree back "
+       "(composition with parse_render), and C03's infoset of it, seen as a DOM (XV.Spec.DomView: attributes in order with normalised "
+       "values, character data coalesced across Text/CDATA boundaries), is the content of the original tree. Side conditions (okNode / "
+       "okDocCfg): DOM invariants (names are Names, distinct attribute names, PI target not xml), the serializer's own checks, and the "
+       "recorded inexpressible cases (CR/NEL/LSEP inside CDATA, comment, PI; leading white space of PI data; sharpness witness "
+       "reparse_cr_in_comment_lost); an XML 1.1 document is written with its declaration. PARTIAL: no doctype / entity references / "
+       "document-level comments and PIs in that theorem; namespaces / "
        "fix-up, doctype, entity references, BOM, pretty printing, filters, file and string targets are covered by the model-free round "
        "trip only; the transcoder is modelled at UTF-16 unit level (byte level is C05); ICU encodings are judged by Python codecs. The "
        "models mirror the code AS IT IS, with switches for four proposed repairs (fixes/c12-*.diff, tools/props/c12.py FIXED). Trusted: "
